@@ -938,6 +938,7 @@ def fam_recurse(rnd, i):
     w = "w1"
     steps = [{"s": "recurse", "recurse": True}, fs("mkdir", ("r",))]
     two_roots = rnd.random() < 0.35
+    cwdroot = False
     if two_roots:
         steps += [fs("mkdir", ("r", "a")), fs("mkdir", ("r", "ab")), fs("mkdir", ("r", "a", "s")), fs("mkdir", ("r", "ab", "s")),
                   new(w, rnd.choice([0, 0, 8])), call(w, "add", ("r", "a"), rnd.choice(["rel", "abs", "dot"]), recurse=True),
@@ -951,7 +952,12 @@ def fam_recurse(rnd, i):
             if d[:-1] == ("r",) or d[:-1] in dirs:
                 steps.append(fs("mkdir", d))
                 dirs.append(d)
-        steps += [new(w, rnd.choice([0, 0, 8])), call(w, "add", ("r",), rnd.choice(["rel", "abs", "dot", "trail"]), rnd, recurse=True), drain(w)]
+        cwdroot = rnd.random() < 0.2       # the root is the working directory, added as "." (its directories are listed as "s", not "./s")
+        if cwdroot:
+            steps += [{"s": "chdir", "p": ["r"]}, new(w, rnd.choice([0, 0, 8])),
+                      {"s": "call", "w": w, "t": "t1", "op": "add", "arg": {"abs": False, "c": ["."]}, "recurse": True}, drain(w)]
+        else:
+            steps += [new(w, rnd.choice([0, 0, 8])), call(w, "add", ("r",), rnd.choice(["rel", "abs", "dot", "trail"]), rnd, recurse=True), drain(w)]
         dirs = [("r",)] + dirs
     if not two_roots and rnd.random() < 0.3:
         # a directory whose own name ends in \\... , added on its own (not recursively): its siblings are not watched by that
@@ -1035,8 +1041,14 @@ def fam_recurse(rnd, i):
     if not two_roots and removed is None and rnd.random() < 0.25:
         # Remove of the whole tree while one of its directories has just been deleted and the reader has not got to that yet
         # (it is parked sending the Create): every kernel watch of the tree must be released, whatever Remove returns
+        removed = ("r",)
         steps += [drain(w), fs("mkdir", ("r", "gone9")), obs(w), fs("rmdir", ("r", "gone9")), obs(w),
-                  call(w, "remove", ("r",), "rel", recurse=True), drain(w), obs(w), fs("create", ("r", "after")), drain(w)]
+                  {"s": "call", "w": w, "t": "t1", "op": "remove", "arg": {"abs": False, "c": ["."]}, "recurse": True} if cwdroot else call(w, "remove", ("r",), "rel", recurse=True),
+                  drain(w), obs(w), fs("create", ("r", "after")), drain(w)]
+    if not two_roots and cwdroot and removed is None:
+        steps += [drain(w), call(w, "watchlist"), {"s": "call", "w": w, "t": "t1", "op": "remove", "arg": {"abs": False, "c": ["."]}, "recurse": True},
+                  drain(w), call(w, "watchlist"), obs(w)]
+        steps += [fs("create", d + ("late",)) for d in dirs[:4]] + [drain(w)]
     steps += [drain(w), obs(w), call(w, "close"), drain(w), obs(w), {"s": "recurse", "recurse": False}]
     return steps
 
